@@ -104,7 +104,7 @@ def run_cases(ctx, n_cases, stream, res, stats):
                 f"outside_maximization differs from the Lean model (Float) at nodes {diff} ({d['space']}, G={d['G']})",
                 dict(m, impl=d["idx"].tolist(), model=o["idx"].tolist()), stage="B"))
     # exact rationals on the small linear-space cases
-    sub = [(i, d) for i, d in enumerate(cases) if mc.finite_for_rat(d) and d["G"] <= 7 and len(d["order"]) <= 40][: max(3, n_cases // 4)]
+    sub = [(i, d) for i, d in enumerate(cases) if mc.finite_for_rat(d) and d["G"] <= 7 and len(d["order"]) <= 40][: min(60, max(3, n_cases // 4))]
     if sub:
         rat = mc.run_model([d for _, d in sub], "q")
         for j, (i, d) in enumerate(sub):
@@ -151,7 +151,7 @@ def run(ctx):
     import tsdate  # noqa: F401
     stats = new_stats()
     stats["t_import"] = round(time.time() - t0, 1)
-    run_cases(ctx, ctx.n(60, 1500), 1, res, stats)
+    run_cases(ctx, ctx.n(60, 700), 1, res, stats)
     res.rule = ("msprime tree sequences (2-7 samples at time 0, 1-12 trees, optional polytomies / node renumbering) x "
                 "probability space x eps x 3-9 custom timepoints; real outside_maximization vs the Lean model on the "
                 "implementation's own inside rows, edge order and Poisson tables (indices compared exactly), and vs the "
